@@ -33,43 +33,9 @@ META = dict(
 
 
 def api_case(elements, pairs, nr, nrho, route, rot=0):
-  model = EC.Model(elements, pairs, pair_list_rotation=rot)
-  res = new_result("api %s nr=%d nrho=%d %s" % (model.describe(), nr, nrho, route))
-  from atsim.potentials import writeSetFL
-  from atsim.potentials.eam_tabulation import SetFL_EAMTabulation
-
-  def fn():
-    cutoff, cutoff_rho = sym("cutoff"), sym("cutoff_rho")
-    assume(cutoff > 0)
-    assume(cutoff_rho > 0)
-    eampots, pairpots, _d, _q = EC.build_objects(model, lambda name: uf(name), EC.sym_meta)
-    out = Sink()
-    if route == "class":
-      SetFL_EAMTabulation(pairpots, eampots, cutoff, nr, cutoff_rho, nrho).write(out)
-    else:
-      writeSetFL(nrho, cutoff_rho / (nrho - 1), nr, cutoff / (nr - 1), eampots, pairpots, out)
-    return out.getvalue()
-
-  c, cr = z3.Real("cutoff"), z3.Real("cutoff_rho")
-
-  def build(path, wrong=False):
-    if path.exc is not None:
-      raise Structural("exception", "%s: %s" % (type(path.exc).__name__, path.exc))
-    try:
-      parsed = eamtables.read_setfl(path.value, "alloy")
-    except eamtables.FormatError as e:
-      raise Structural("format", "setfl reader rejects the file: %s" % e)
-    O = EC.observed_setfl(parsed, model, nr, nrho, EC.z3_meta, "alloy")
-    dr = c / rv(nr - 1) * (2 if wrong else 1)
-    E = EC.expected_setfl(model, nr, nrho, dr, cr / rv(nrho - 1), EC.z3_alg(), EC.z3_meta, "alloy")
-    return EC.vcs_from(path, O, E)
-
-  def replay(v, w, path, structural):
-    return EP.replay_eam_api("setfl", model, nr, nrho, w, route)
-
-  explore_and_check(res, fn, build, replay=replay, negative=lambda p: build(p, wrong=True))
-  res["nontrivial"] = res["vcs"]
-  return res
+  """the generic EAM API case (first write, functions changed in place, second write of the same object)"""
+  from checks import eam_api
+  return eam_api.api_case("setfl", elements, pairs, nr, nrho, route=route, rot=rot)
 
 
 def cases(tier, seed=0):
